@@ -69,6 +69,9 @@ type OpSpec struct {
 	GateOpen bool   `json:"gate_open,omitempty"`
 	TickMs   int64  `json:"tick_ms,omitempty"`
 	Quiesce  bool   `json:"quiesce,omitempty"` // appended by the generator to bring everything to rest
+	// Interval (status only): "" = the spec's positive interval, "zero" = 0, "neg1" = -1 ns, "negbig" = -(1<<62) ns.
+	// The results of Status do not depend on the interval; a non-positive one must not panic (time.NewTicker would).
+	Interval string `json:"interval,omitempty"`
 }
 
 type BurstSpec struct {
@@ -502,7 +505,16 @@ func (w *world) doOp(op OpSpec) string {
 		defer cancel()
 		var cs []string
 		ended := true
-		for r := range w.ws.Status(ctx, w.uuidOf(op.ID), time.Duration(w.spec.StatusMs)*time.Millisecond) {
+		iv := time.Duration(w.spec.StatusMs) * time.Millisecond
+		switch op.Interval {
+		case "zero":
+			iv = 0
+		case "neg1":
+			iv = -1
+		case "negbig":
+			iv = -(1 << 62)
+		}
+		for r := range w.ws.Status(ctx, w.uuidOf(op.ID), iv) {
 			cs = append(cs, planClass(r.Data, r.Err))
 			if len(cs) >= 3 {
 				ended = false
@@ -1185,7 +1197,7 @@ func genHist(root *core.Rand, i int, maxLen int, tickCase bool) *Spec {
 			}
 		case 3:
 			id, kind := pickID()
-			s.Ops = append(s.Ops, OpSpec{Op: "status", ID: id, IDKind: kind})
+			s.Ops = append(s.Ops, OpSpec{Op: "status", ID: id, IDKind: kind, Interval: []string{"", "", "", "zero", "neg1", "negbig"}[r.Intn(6)]})
 		case 4:
 			id, kind := pickID()
 			s.Ops = append(s.Ops, OpSpec{Op: "plan", ID: id, IDKind: kind})
@@ -1248,6 +1260,7 @@ func genHist(root *core.Rand, i int, maxLen int, tickCase bool) *Spec {
 func genBurst(root *core.Rand, i int) *Spec {
 	r := root.Fork(uint64(i) + 1_000_000)
 	s := &Spec{Kind: "burst", Index: i, Seed: core.Seed(), MaxMs: defaultMax, GraceMs: 80, ShortMs: 200, StatusMs: 2, IdleMs: 3000, Family: "burst"}
+	s.StatusMs = []int{2, 0, -1}[i%3] // the concurrent Status callers: positive, zero, negative interval
 	b := &BurstSpec{Starts: r.Range(2, 16), GateOpen: r.Chance(0.5)}
 	kinds := preKinds(s.MaxMs)
 	switch c := r.Weighted([]int{45, 15, 25, 8, 7}); c {
@@ -1300,6 +1313,7 @@ func histCase(s *Spec, o childOut) core.Case {
 	sig := []string{}
 	opHist := map[string]int{}
 	kindHist := map[string]int{}
+	ivHist := map[string]int{}
 	startIDs := map[int]int{}
 	calls := map[int]int{}
 	note := ""
@@ -1311,6 +1325,13 @@ func histCase(s *Spec, o childOut) core.Case {
 		ops = append(ops, core.Pair(opTerm(op, res), rterm(first)))
 		obs = append(obs, map[string]any{"op": op.Op, "id": op.ID, "id_kind": op.IDKind, "result": res, "quiesce": op.Quiesce})
 		sig = append(sig, op.Op+":"+op.IDKind+":"+res)
+		if op.Op == "status" {
+			iv := op.Interval
+			if iv == "" {
+				iv = "positive"
+			}
+			ivHist[iv+"/"+op.IDKind]++
+		}
 		if !op.Quiesce {
 			opHist[op.Op]++
 			if op.IDKind != "" {
@@ -1379,7 +1400,7 @@ func histCase(s *Spec, o childOut) core.Case {
 	c := core.Case{
 		ID: fmt.Sprintf("%s-%d", s.Family, s.Index), Kind: s.Family, Coq: term, Nontrivial: nontrivial,
 		Hash: core.Hash(strings.Join(preWhat, ","), strconv.FormatInt(s.MaxMs, 10), strings.Join(sig, "|")),
-		Dist: map[string]any{"ops": opHist, "op_idkind": kindHist, "len": len(s.Ops), "pre": preWhat, "max_ms": s.MaxMs,
+		Dist: map[string]any{"ops": opHist, "op_idkind": kindHist, "status_interval": ivHist, "len": len(s.Ops), "pre": preWhat, "max_ms": s.MaxMs,
 			"wall_ms": o.wall.Milliseconds(), "abnormal": o.abnorm},
 		Input:    s,
 		Observed: map[string]any{"calls": obs, "execs": o.execs, "abnormal": o.abnorm, "stderr_tail": o.stderr},
